@@ -523,6 +523,69 @@ def c_adaptor_next(eng, st, fr, f, args, site):
     return c_array_iter_next(eng, st, fr, f, args, site)
 
 
+@contract(r"(^|[ :<])(std|core)::iter::Iterator::collect(::<.*>)?$")
+def c_collect_lazymap(eng, st, fr, f, args, site):
+    """collect() of `iter.map(closure)` over an iterator of unknown length, into Vec<_> or Result<Vec<_>, _>: the
+    closure is analysed as the body of an abstract loop (states joined at the loop head until stable), so what it
+    captures by reference carries an inductive invariant and its panic sites are checked in context."""
+    it = force(eng, st, args[0])
+    if not (isinstance(it, Cont) and it.kind == "iter:lazymap" and it.segs and it.segs[0][0] == "lazy"):
+        return None
+    rt = ret_ty(eng, site)
+    if rt is None:
+        return None
+    _, src, fn = it.segs[0]
+    t = eng.T.t(rt)
+    is_res = t["k"] == "adt" and t.get("path") in ("std::result::Result", "core::result::Result")
+    outs = []
+    cur = st.fork()
+    key0 = cur.key
+    label = "collect:%s" % it.id
+    for rnd in range(6):
+        k = eng._hv()
+        ev = _fresh_elem(eng, src.elem, k) if src.elem is not None else eng.fresh_int("byte", 8, False)
+        s0 = cur.fork()
+        if src.kind == "iter:ref":
+            loc = "obj:it_elem#%d" % k
+            s0.locs[loc] = ev
+            ev = Ref(loc, (), False)
+        res = call_closure(eng, s0, fr, fn, [ev], site)
+        if res is None:
+            return None
+        cont = []
+        for s1, v in res:
+            if is_res:
+                e, _ = as_enum(eng, s1, v)
+                if e is None:
+                    return None
+                for s2, vi, fs in split_variants(eng, s1, e, None):
+                    if vi == 1:
+                        s2.key = key0
+                        outs.append((s2, Enum(rt, ((1, (fs[0],)),), "collected")))
+                    else:
+                        cont.append(s2)
+            else:
+                cont.append(s1)
+        new = cur
+        for s2 in cont:
+            s2.key = key0
+            new = eng.M.join_states(new, s2, label, loop_head=True)
+            new.key = key0
+        if rnd >= 3:
+            new.facts = cur.facts & new.facts
+        if eng._same_state(cur, new):
+            cur = new
+            break
+        cur = new
+    vt = variant_payload_ty(eng, rt, 0) if is_res else rt
+    kind = eng.M.container_kind(vt) if vt is not None else None
+    vec = new_cont(eng, kind or "vec", Lin.sym("len(collected#%d)" % eng._hv()), None, None, vt) if kind else Top(vt, "collected#%d" % eng._hv())
+    if kind:
+        eng.declare(repr(vec.len), 0, eng.len_max)
+    outs.append((cur, Enum(rt, ((0, (vec,)),), "collected") if is_res else vec))
+    return outs
+
+
 def _mk_known(eng, it, elems, rt):
     return Cont("iter:arr", "arrit#%d" % eng._hv(), Lin.const(len(elems)), None, (("elems", tuple(elems), 0),), rt if rt is not None else it.ty)
 
@@ -532,10 +595,13 @@ def c_known_iter_adaptors(eng, st, fr, f, args, site):
     """Iterator adaptors / consumers over an iterator whose elements are known (an array literal, a constant table):
     evaluated eagerly, element by element, with the closures analysed on each element."""
     it = force(eng, st, args[0]) if not isinstance(args[0], Ref) else _known_iter(eng, st, args[0])
+    op = re.sub(r"::<.*$", "", f["path"]).split("::")[-1]
+    if op == "map" and getattr(eng, "model_lazy_collect", False) and isinstance(it, Cont) and it.kind in ("iter:ref", "iter:val") and len(args) >= 2 and isinstance(args[1], Fn):
+        # lazily mapped iterator of unknown length: evaluated as an abstract loop when it is collected
+        return [(st, Cont("iter:lazymap", "lazy#%d" % eng._hv(), it.len, None, (("lazy", it, args[1]),), ret_ty(eng, site)))]
     if not (isinstance(it, Cont) and it.kind == "iter:arr" and it.segs and it.segs[0][0] == "elems"):
         return None
     rt = ret_ty(eng, site)
-    op = re.sub(r"::<.*$", "", f["path"]).split("::")[-1]
     _, elems, pos = it.segs[0]
     elems = list(elems[pos:])
     if len(elems) > 16:
